@@ -18,10 +18,20 @@ Inductive tvalue :=
 (* argument definitions of a field: name |-> (printed type, its named type) *)
 Definition argdefs := list (string * (string * string)).
 
+(* a directive applied to a field: the argument definitions of its definition (None: no definition attached), its arguments *)
+Definition dirapp := (option argdefs * list (string * tvalue))%type.
+
 Inductive tsel :=
-| TField (fdef : option argdefs) (args : list (string * tvalue)) (sub : list tsel)
+| TField (fdef : option argdefs) (args : list (string * tvalue)) (dirs : list dirapp) (sub : list tsel)
     (* fdef = None: field.Definition == nil || field.Definition.Arguments == nil *)
-| TInline (sub : list tsel).
+| TInline (dirs : list dirapp) (sub : list tsel).
+
+(* common.SelectionSetToFragmentDirectives: the directives of the inline fragments of a level, nested fragments included *)
+Fixpoint tfrag_dirs (s : tsel) : list dirapp :=
+  match s with
+  | TField _ _ _ _ => []
+  | TInline ds sub => ds ++ (fix go (l : list tsel) := match l with [] => [] | x :: t => tfrag_dirs x ++ go t end) sub
+  end.
 
 (* schema.Types restricted to what the walk reads: type name |-> (field name |-> printed type) *)
 Definition types := list (string * list (string * string)).
@@ -61,15 +71,31 @@ Definition walk_arg (ts : types) (ads : argdefs) (a : string * tvalue) : list (s
       end
   end.
 
-(* walkArgumentList over common.SelectionSetToFields(s, nil) *)
+(* since fix 0156dcf: a directive argument that is a variable is declared with the type the directive's definition
+   gives that argument (values of other kinds are not looked into) *)
+Definition walk_dir (d : dirapp) : list (string * string) :=
+  match fst d with
+  | None => []
+  | Some ads =>
+      flat_map (fun a => match snd a with
+                         | TVar n _ _ => match lookup (fst a) ads with Some (tstr, _) => [(n, tstr)] | None => [] end
+                         | _ => []
+                         end) (snd d)
+  end.
+
+(* walkArgumentList: first the directives of the fragments of the level, then over common.SelectionSetToFields(s, nil)
+   the directives of each field, its arguments, and the same for its selection *)
 Fixpoint walk_sel (ts : types) (s : tsel) : list (string * string) :=
   match s with
-  | TField fdef args sub =>
+  | TField fdef args dirs sub =>
+      flat_map walk_dir dirs ++
       match fdef with Some ads => flat_map (walk_arg ts ads) args | None => [] end ++
+      flat_map walk_dir (flat_map tfrag_dirs sub) ++
       (fix go (l : list tsel) := match l with [] => [] | x :: t => walk_sel ts x ++ go t end) sub
-  | TInline sub => (fix go (l : list tsel) := match l with [] => [] | x :: t => walk_sel ts x ++ go t end) sub
+  | TInline _ sub => (fix go (l : list tsel) := match l with [] => [] | x :: t => walk_sel ts x ++ go t end) sub
   end.
-Definition walk (ts : types) (ss : list tsel) : list (string * string) := flat_map (walk_sel ts) ss.
+Definition walk (ts : types) (ss : list tsel) : list (string * string) :=
+  flat_map walk_dir (flat_map tfrag_dirs ss) ++ flat_map (walk_sel ts) ss.
 
 (* the map those writes leave behind: the last write of a name wins; the header declares exactly its entries *)
 Fixpoint last_write (n : string) (ws : list (string * string)) : option string :=
@@ -108,22 +134,29 @@ Definition arg_positions (fdef : option argdefs) (a : string * tvalue) : list (s
       end
   | v => kid_positions v
   end.
+Definition dir_positions (d : dirapp) : list (string * string) := flat_map (arg_positions (fst d)) (snd d).
+Definition dir_vars (d : dirapp) : list string := flat_map (fun a => kid_vars (snd a)) (snd d).
 Fixpoint sel_positions (s : tsel) : list (string * string) :=
   match s with
-  | TField fdef args sub =>
+  | TField fdef args dirs sub =>
+      flat_map dir_positions dirs ++
       flat_map (arg_positions fdef) args ++
+      flat_map dir_positions (flat_map tfrag_dirs sub) ++
       (fix go (l : list tsel) := match l with [] => [] | x :: t => sel_positions x ++ go t end) sub
-  | TInline sub => (fix go (l : list tsel) := match l with [] => [] | x :: t => sel_positions x ++ go t end) sub
+  | TInline _ sub => (fix go (l : list tsel) := match l with [] => [] | x :: t => sel_positions x ++ go t end) sub
   end.
-Definition positions (ss : list tsel) : list (string * string) := flat_map sel_positions ss.
+Definition positions (ss : list tsel) : list (string * string) :=
+  flat_map dir_positions (flat_map tfrag_dirs ss) ++ flat_map sel_positions ss.
 Fixpoint sel_vars (s : tsel) : list string :=
   match s with
-  | TField _ args sub =>
+  | TField _ args dirs sub =>
+      flat_map dir_vars dirs ++
       flat_map (fun a => kid_vars (snd a)) args ++
+      flat_map dir_vars (flat_map tfrag_dirs sub) ++
       (fix go (l : list tsel) := match l with [] => [] | x :: t => sel_vars x ++ go t end) sub
-  | TInline sub => (fix go (l : list tsel) := match l with [] => [] | x :: t => sel_vars x ++ go t end) sub
+  | TInline _ sub => (fix go (l : list tsel) := match l with [] => [] | x :: t => sel_vars x ++ go t end) sub
   end.
-Definition vars (ss : list tsel) : list string := flat_map sel_vars ss.
+Definition vars (ss : list tsel) : list string := flat_map dir_vars (flat_map tfrag_dirs ss) ++ flat_map sel_vars ss.
 
 (* ---- the validator's annotation invariants, as a boolean the correspondence evaluates on every real step ---- *)
 Fixpoint wt_kid (ts : types) (fs : list (string * string)) (chname : string) (v : tvalue) : bool :=
@@ -150,12 +183,22 @@ Definition wt_arg (ts : types) (ads : argdefs) (a : string * tvalue) : bool :=
       | _ => true
       end
   end.
+(* a directive of a field: its definition is attached and knows every argument; the arguments are variables or plain
+   literals (skip, include, deprecated-style directives: no list or object values) *)
+Definition wt_dir (d : dirapp) : bool :=
+  match fst d with
+  | Some ads => forallb (fun a => match lookup (fst a) ads with
+                                  | Some _ => match snd a with TKids _ _ => false | _ => true end
+                                  | None => false end) (snd d)
+  | None => match snd d with [] => true | _ => false end
+  end.
 Fixpoint wt_sel (ts : types) (s : tsel) : bool :=
   match s with
-  | TField fdef args sub =>
+  | TField fdef args dirs sub =>
+      forallb wt_dir dirs &&
       match fdef with Some ads => forallb (wt_arg ts ads) args | None => match args with [] => true | _ => false end end &&
       (fix go (l : list tsel) := match l with [] => true | x :: t => wt_sel ts x && go t end) sub
-  | TInline sub => (fix go (l : list tsel) := match l with [] => true | x :: t => wt_sel ts x && go t end) sub
+  | TInline ds sub => forallb wt_dir ds && (fix go (l : list tsel) := match l with [] => true | x :: t => wt_sel ts x && go t end) sub
   end.
 (* no type has a field with the empty name (GraphQL names are non-empty) *)
 Definition names_ok (ts : types) : bool := forallb (fun e => match lookup "" (snd e) with None => true | Some _ => false end) ts.
